@@ -17,6 +17,7 @@ import (
 	"github.com/openziti/foundation/v2/errorz"
 	"github.com/openziti/storage/ast"
 	"github.com/openziti/storage/boltz"
+	"github.com/openziti/storage/zitiql"
 	"github.com/sirupsen/logrus"
 	"go.etcd.io/bbolt"
 )
@@ -49,7 +50,7 @@ import (
 //	    verdict is the Lean driver's: every recorded answer = model on the tagged version.
 //	race <scenario> <goroutines> <iters>       concurrent use of the helpers; prints "done" (or "wrong:<what>");
 //	    the interesting output is the Go race detector's report when the harness is built with -race
-//	    scenarios: parse getsymbol errors query extsym emptyfilter mapsym sharedquery
+//	    scenarios: parse getsymbol errors query extsym emptyfilter mapsym debugparse sharedquery
 func init() {
 	register("c18", &propHarness{gen: c18Gen, exec: c18Exec})
 	logrus.SetLevel(logrus.PanicLevel)
@@ -852,6 +853,26 @@ func c18Race(scenario string, goroutines, iters int) string {
 	})
 	var wrong atomic.Value
 	var wg sync.WaitGroup
+	// serial outcomes of the parse scenario's inputs
+	parseErrs := make([]int, len(c18ParseQueries))
+	parseFails := make([]bool, len(c18ParseQueries))
+	if scenario == "debugparse" {
+		prev := runtime.GOMAXPROCS(2)
+		defer runtime.GOMAXPROCS(prev)
+	}
+	if scenario == "parse" || scenario == "debugparse" {
+		for i, q := range c18ParseQueries {
+			parseErrs[i] = len(zitiql.Parse(q, ast.NewListener()))
+			_, err := ast.Parse(e.things, q)
+			parseFails[i] = err != nil
+		}
+		// a diagnostic parse keeps ANTLR's console listener, which prints to os.Stderr; the check reads stdout+stderr
+		if devnull, err := os.OpenFile(os.DevNull, os.O_WRONLY, 0); err == nil {
+			saved := os.Stderr
+			os.Stderr = devnull
+			defer func() { os.Stderr = saved; _ = devnull.Close(); ast.EnableQueryDebug.Store(false) }()
+		}
+	}
 	notFound := fmt.Errorf("wrapped: %w", boltz.NewNotFoundError("thing", "id", "x"))
 	refExists := fmt.Errorf("wrapped: %w", boltz.NewReferenceByIdError("thing", "a", "group", "g", "members"))
 	dup := fmt.Errorf("wrapped: %w", &boltz.UniqueIndexDuplicateError{Field: "name", Value: "v", EntityType: "things"})
@@ -933,7 +954,43 @@ func c18Race(scenario string, goroutines, iters int) string {
 			for i := 0; i < iters; i++ {
 				switch scenario {
 				case "parse":
-					_, _ = ast.Parse(e.things, pick(r, c18ParseQueries))
+					// every exported entry point of the parsing layer, with its debug / diagnostic variants
+					qi := r.intn(len(c18ParseQueries))
+					q := c18ParseQueries[qi]
+					switch m := r.intn(8); m {
+					case 0: // diagnostic parse (DiagnosticErrorListener on the pooled parser)
+						_ = zitiql.ParseWithDebug(q, ast.NewListener(), true)
+					case 1:
+						if n := len(zitiql.ParseWithDebug(q, ast.NewListener(), false)); n != parseErrs[qi] {
+							wrong.Store(fmt.Sprintf("parse:%d-errors-instead-of-%d:%s", n, parseErrs[qi], q))
+						}
+					case 2:
+						if n := len(zitiql.Parse(q, ast.NewListener())); n != parseErrs[qi] {
+							wrong.Store(fmt.Sprintf("parse:%d-errors-instead-of-%d:%s", n, parseErrs[qi], q))
+						}
+					case 3: // query debugging switched on and off while others parse
+						ast.EnableQueryDebug.Store(i%2 == 0)
+						_, err := ast.Parse(e.things, q)
+						if (err != nil) != parseFails[qi] {
+							wrong.Store("parse:outcome-changed:" + q)
+						}
+					default:
+						_, err := ast.Parse(e.things, q)
+						if (err != nil) != parseFails[qi] {
+							wrong.Store("parse:outcome-changed:" + q)
+						}
+					}
+				case "debugparse":
+					// repaired by 956c2a8: a diagnostic parse of an input with a syntax error right after (on the same pooled parser
+					// as) somebody's plain parse used to write into that caller's error collector
+					if g%2 == 0 {
+						_ = zitiql.ParseWithDebug(`name = `, ast.NewListener(), true)
+					} else if n := len(zitiql.Parse(`name = "n1"`, ast.NewListener())); n != 0 {
+						wrong.Store(fmt.Sprintf("parse:%d-errors-instead-of-0:valid-filter", n))
+					}
+					// sync.Pool hands a goroutine back the object it has just put (per-P slot); with few Ps and a yield after every
+					// parse the pooled parser really changes hands between the diagnostic and the plain callers
+					runtime.Gosched()
 				case "getsymbol":
 					n := pick(r, c18SymbolNames)
 					s := e.things.GetSymbol(n)
@@ -1011,6 +1068,8 @@ func c18Exec(line string) string {
 		return c18Mv(f)
 	case "cr":
 		return c18Cr(f)
+	case "sq":
+		return c18Sq(f)
 	case "race":
 		g, _ := strconv.Atoi(f[2])
 		n, _ := strconv.Atoi(f[3])
@@ -1127,11 +1186,18 @@ func c18Gen(tier string, seed uint64, out *bufio.Writer) {
 		}
 		fmt.Fprintln(out, c18GenCr(r, focus, crIters))
 	}
+	nsq, sqRounds := 3, 30
+	if tier == "thorough" {
+		nsq, sqRounds = 40, 100
+	}
+	for i := 0; i < nsq; i++ {
+		fmt.Fprintln(out, c18GenSq(r, sqRounds))
+	}
 	it := 300
 	if tier == "thorough" {
 		it = 3000
 	}
-	for _, sc := range []string{"parse", "getsymbol", "errors", "query", "extsym", "emptyfilter", "mapsym"} {
+	for _, sc := range []string{"parse", "getsymbol", "errors", "query", "extsym", "emptyfilter", "mapsym", "debugparse"} {
 		fmt.Fprintf(out, "race %s %d %d\n", sc, 6, it)
 	}
 }
